@@ -415,7 +415,9 @@ func invalidTexts(class string) []string {
 	return nil
 }
 
-var forms = []string{"braced", "plain", "default", "split", "alt"}
+// "quoted" is the text written as a string literal (no variable at all): where the schema admits a
+// string next to the typed scalar it must denote the same value as the typed literal
+var forms = []string{"braced", "plain", "default", "split", "alt", "quoted"}
 
 // variableFor writes text through a variable form; it returns the template and the environment.
 func variableFor(form, text string, salt int) (string, map[string]string) {
@@ -434,6 +436,8 @@ func variableFor(form, text string, salt int) (string, map[string]string) {
 		return "${C08_E:-" + text + "}", env // set but empty
 	case "alt":
 		return "${C08_W:+" + text + "}", env
+	case "quoted":
+		return text, env
 	case "split":
 		r := []rune(text)
 		if len(r) == 0 {
